@@ -22,7 +22,7 @@ import (
 const libAlpha = "aA1 _\"\\é"
 
 // LibCases is the number of cases of H_Lib.
-const LibCases = 56
+const LibCases = 57
 
 func H_Lib(k, n int) {
 	s := verif.BytesIn(n, "aA1 _\"\\,Z")
@@ -243,6 +243,11 @@ func H_Lib(k, n int) {
 	case 55:
 		v, err := strconv.ParseBool(s)
 		verif.Obs("r", fmt.Sprint(v, err != nil))
+	case 56:
+		var sb strings.Builder
+		r := strings.NewReplacer("\"", "\"\"", "a1", "X", "a", "Y")
+		n, err := r.WriteString(&sb, s)
+		verif.Obs("r", fmt.Sprint(sb.String(), n, err))
 	}
 	verif.Cover("lib-case")
 }
